@@ -1344,6 +1344,28 @@ func foDFSBases(tier string) []foScenario {
 func runFoDFS(o Opts, d *Driver, res *Result) {
 	bases := foDFSBases(o.Tier)
 	// quick tier: a seeded slice of the base scenarios; thorough: all of them. o.N bounds the number of executions.
+	if o.Only >= 0 && o.Only < len(bases) {
+		// replay of one schedule: -only <base index> -replay <comma separated scheduler decisions>
+		var prefix []int
+		for _, f := range strings.Split(o.Replay, ",") {
+			var c int
+			if _, err := fmt.Sscan(f, &c); err == nil {
+				prefix = append(prefix, c)
+			}
+		}
+		var taken [][2]int
+		sc := bases[o.Only]
+		sc.Choices, sc.Taken = prefix, &taken
+		res.Evaluations++
+		trace, v := runFoScenario(d, "replay", sc, res)
+		res.TracesValidated++
+		if v != nil && v.kind != "ambig" {
+			smp := sc.describe()
+			smp["callout_trace"] = strings.Join(trace, ",")
+			res.Violations = append(res.Violations, Violation{Property: v.prop, Also: v.also, Kind: v.kind, Sig: v.sig, Detail: v.detail, Replay: smp})
+		}
+		return
+	}
 	order := rand.New(rand.NewSource(o.Seed * 7727)).Perm(len(bases))
 	runs, complete := 0, 0
 	uniq := map[uint64]bool{}
@@ -1385,6 +1407,11 @@ func runFoDFS(o Opts, d *Driver, res *Result) {
 				smp["dfs_choices"] = choices
 				smp["callout_trace"] = strings.Join(trace, ",")
 				smp["engine"], smp["profile"], smp["base"] = "fo", "dfs", bi
+				cs := make([]string, len(choices))
+				for i, c := range choices {
+					cs[i] = fmt.Sprint(c)
+				}
+				smp["rerun"] = fmt.Sprintf("harness fo -profile dfs -tier %s -only %d -replay %s", o.Tier, bi, strings.Join(cs, ","))
 				res.Violations = append(res.Violations, Violation{Property: v.prop, Also: v.also, Kind: v.kind, Sig: v.sig, Detail: v.detail, Replay: smp})
 				if res.full() {
 					return
